@@ -2,6 +2,7 @@ import ElaVerif.Model.Wire
 import ElaVerif.Lemmas.Wire
 import ElaVerif.Lemmas.WireTokens
 import ElaVerif.Gen.C23
+import ElaVerif.Model.CheckpointDriver
 /-!
 # C23 — saved state checkpoints are lossless
 
@@ -76,7 +77,31 @@ theorem C23_restore_partial (ty : Ty) (step : Val → Val) (s : Val) (h : wf ty 
   simp only [List.append_nil] at this
   simp [decode, this]
 
+/-! ## mempool checkpoint: the snapshot written to disk is NOT lossless (known finding) -/
+
+open ElaVerif.CheckpointDriver in
+/-- Full statement: the object `Snapshot()` returns — what the checkpoint manager serializes into the
+    mempool checkpoint file — holds the transactions of the pool.  FALSE of the code: `Deserialize`
+    hands the transactions to the pool (where they are duplicates) and never fills the new
+    checkpoint's own list.  Witness: a pool with one transaction. -/
+theorem C23_mempool_snapshot_lossless_false :
+    ¬ ∀ live : PoolCkpt, (snapshot live).txnList = live.txnList := by
+  intro h
+  have := h ⟨1, ["tx"]⟩
+  revert this; decide
+
+open ElaVerif.CheckpointDriver in
+/-- what holds instead: the snapshot keeps the height and an empty transaction list, and the pool
+    itself is left unchanged by taking it -/
+theorem C23_mempool_snapshot_partial (live : PoolCkpt) :
+    (snapshot live).height = live.height ∧ (snapshot live).txnList = [] := by
+  simp [snapshot, deserializeInto]
+
 /-! ## regenerated facts -/
+
+/-- no checkpoint reader sizes a slice or a map by a count read from the file (regenerated list of the
+    `make` calls whose size argument is not a literal: empty after the `fix:` commits) -/
+theorem C23_gen_sized_makes : Gen.C23.sizedMakes = [] := by decide
 
 /-- Writer and reader mirror each other, token for token, for every checkpoint type — each stream
     is the full flattening of `Serialize` / `Deserialize` with every helper and every nested type's
